@@ -15,7 +15,7 @@ FACTORS = {
     "sample": ["tpcn", "rwm"],
     "resample": ["mult", "syst"],
     "clustering": [True, False],
-    "evaluation": ["scalar", "vector", "blobs", "vector_reuse", "blobs_nodtype"],
+    "evaluation": ["scalar", "vector", "blobs", "vector_reuse", "blobs_nodtype", "blobs2"],
     "bounds": [{}, {"periodic": [0]}, {"reflective": [1]}, {"periodic": [1], "reflective": [0]}],
     "metric": [{}, {"volume_variation": 0.5}],
 }
